@@ -4,7 +4,7 @@ from tools import vlib, t3
 from tools.vlib import hx, unhx
 
 MODULE = "PropC19"
-THEOREMS = ["C19_product", "C19_product_lengths", "C19_product_is_cartesian", "C19_product_size", "C19_product_exactly_once", "C19_concat_unfold", "C19_selector", "C19_selector_order", "C19_split_bytes", "C19_split_bound", "C19_split_example", "C19_concat", "C19_cone_conforms"]
+THEOREMS = ["C19_product", "C19_product_lengths", "C19_product_is_cartesian", "C19_product_size", "C19_product_exactly_once", "C19_concat_unfold", "C19_selector", "C19_selector_order", "C19_split_bytes", "C19_split_bound", "C19_split_example", "C19_concat", "C19_cone_conforms", "C19_reader_emits_the_lines", "C19_reader_unterminated_last_line", "C19_reader_of_nothing_emits_nothing", "C19_reader_keeps_blank_lines"]
 
 
 def rec_lines(sc, name):
